@@ -1656,6 +1656,19 @@ func c01EnqueueUnit(r *core.Run, a *svcAnchors, e *lockEngine, gparam *ssa.Param
 	}
 	fl.BranchOn = func(cond ssa.Value, succ int, s int) (int, bool) {
 		ci := core.Cond(cond)
+		// the group test spelt with len(): len(wid) < 1, len(wid) > 0 ...
+		if known, neTrue := emptinessFact(cond, func(v ssa.Value) bool { return isGroup(v, 0) }); known && ci.Kind != "constcmp" {
+			if (succ == 0) == neTrue {
+				if s&bGNo != 0 {
+					return s, false
+				}
+				return s | bGYes, true
+			}
+			if s&bGYes != 0 {
+				return s, false
+			}
+			return s | bGNo, true
+		}
 		if ci.Kind == "constcmp" && ci.Const != nil && ci.Const.ExactString() == `""` && (ci.Op == token.EQL || ci.Op == token.NEQ) && isGroup(ci.X, 0) {
 			neOnTrue := ci.Op == token.NEQ
 			if ci.Negate {
